@@ -93,3 +93,16 @@ Definition uids (ops : list dynop) : list nat := map op_uid ops.
 
 (* the known-finding class of C02/C03: some fused all-value-only block is actually re-ordered *)
 Definition reorder_noop (c : list node) : Prop := reorder c = c.
+
+(* the operators between consecutive non-Stateless nodes, block by block: no operator may move
+   across a barrier, source or marker *)
+Fixpoint segments (c : list node) : list (list dynop) :=
+  match c with
+  | [] => [[]]
+  | NB (BStateless ops) :: r =>
+      match segments r with
+      | seg :: rest => (ops ++ seg) :: rest
+      | [] => [ops]
+      end
+  | _ :: r => [] :: segments r
+  end.
